@@ -98,33 +98,41 @@
 		assert!(RevocationReason::AaCompromise as i64 == 10);
 	}
 
-	fn idp_bytes(scope: Option<CrlScope>) -> Vec<u8> {
-		let idp = CrlIssuingDistributionPoint { distribution_point: CrlDistributionPoint { uris: Vec::new() }, scope };
-		yasna::construct_der(|w| idp.write_der(w))
+	fn simple_is_ascii(s: &str) -> bool {
+		let b = s.as_bytes();
+		let mut i = 0;
+		while i < b.len() { if b[i] >= 0x80 { return false; } i += 1; }
+		true
 	}
-	/// @ob crl.idp.scope_bytes @props C04,C05,C08 @kind forall @tier quick @timeout 900 @bound "no URI; scope none / user certificates / CA certificates" @fns rcgen::CrlIssuingDistributionPoint::write_der,rcgen::crl::write_distribution_point_name_uris
+	fn idp_bytes(scope: Option<CrlScope>, uri: Option<&str>) -> Vec<u8> {
+		let uris = match uri { Some(u) => vec![u.to_string()], None => Vec::new() };
+		let idp = CrlIssuingDistributionPoint { distribution_point: CrlDistributionPoint { uris }, scope };
+		let der = yasna::construct_der(|w| idp.write_der(w));
+		core::mem::forget(idp);
+		der
+	}
+	fn same(a: &[u8], b: &[u8]) -> bool {
+		if a.len() != b.len() { return false; }
+		let mut i = 0;
+		while i < a.len() { if a[i] != b[i] { return false; } i += 1; }
+		true
+	}
+	/// @ob crl.idp.scope_bytes @props C04,C05,C08 @kind forall @tier quick @timeout 900 @bound "scope none / user certificates / CA certificates, without URI and with the one-character URI \"u\"" @fns rcgen::CrlIssuingDistributionPoint::write_der,rcgen::crl::write_distribution_point_name_uris
 	#[kani::proof]
 	#[kani::unwind(16)]
+	#[kani::stub(str::is_ascii, simple_is_ascii)]
 	fn crl_idp_scope_bytes() {
 		kani::cover!(true, "reachable");
 		// RFC 5280 5.2.5: IssuingDistributionPoint ::= SEQUENCE { distributionPoint [0] DistributionPointName OPTIONAL,
 		//   onlyContainsUserCerts [1] BOOLEAN DEFAULT FALSE, onlyContainsCACerts [2] BOOLEAN DEFAULT FALSE, ... }
-		// DistributionPointName ::= CHOICE { fullName [0] GeneralNames, ... }  (tag [0] on a CHOICE is explicit)
-		let none = idp_bytes(None);
-		let exp0 = [0x30, 4, 0xa0, 2, 0xa0, 0];
-		assert!(none.len() == 6);
-		let mut i = 0;
-		while i < 6 { assert!(none[i] == exp0[i]); i += 1; }
-		let user = idp_bytes(Some(CrlScope::UserCertsOnly));
-		let exp1 = [0x30, 7, 0xa0, 2, 0xa0, 0, 0x81, 1, 0xff];
-		assert!(user.len() == 9);
-		let mut i = 0;
-		while i < 9 { assert!(user[i] == exp1[i]); i += 1; }
-		let ca = idp_bytes(Some(CrlScope::CaCertsOnly));
-		let exp2 = [0x30, 7, 0xa0, 2, 0xa0, 0, 0x82, 1, 0xff];
-		assert!(ca.len() == 9);
-		let mut i = 0;
-		while i < 9 { assert!(ca[i] == exp2[i]); i += 1; }
+		// DistributionPointName ::= CHOICE { fullName [0] GeneralNames, ... }  (tag [0] on a CHOICE is explicit);
+		// GeneralName uniformResourceIdentifier [6] IMPLICIT IA5String
+		assert!(same(&idp_bytes(None, None), &[0x30, 4, 0xa0, 2, 0xa0, 0]));
+		assert!(same(&idp_bytes(Some(CrlScope::UserCertsOnly), None), &[0x30, 7, 0xa0, 2, 0xa0, 0, 0x81, 1, 0xff]));
+		assert!(same(&idp_bytes(Some(CrlScope::CaCertsOnly), None), &[0x30, 7, 0xa0, 2, 0xa0, 0, 0x82, 1, 0xff]));
+		assert!(same(&idp_bytes(None, Some("u")), &[0x30, 7, 0xa0, 5, 0xa0, 3, 0x86, 1, b'u']));
+		assert!(same(&idp_bytes(Some(CrlScope::UserCertsOnly), Some("u")), &[0x30, 10, 0xa0, 5, 0xa0, 3, 0x86, 1, b'u', 0x81, 1, 0xff]));
+		assert!(same(&idp_bytes(Some(CrlScope::CaCertsOnly), Some("u")), &[0x30, 10, 0xa0, 5, 0xa0, 3, 0x86, 1, b'u', 0x82, 1, 0xff]));
 	}
 
 	/// @ob crl.params_returned @props C15,C08 @kind forall @tier quick @timeout 900 @bound "fixed shape (no entries), 2-byte symbolic CRL number, serializer replaced by a recorder" @fns rcgen::CertificateRevocationListParams::signed_by,rcgen::CertificateRevocationList::params
